@@ -3,8 +3,8 @@
 # centre - M.((C-1)/2, (R-1)/2): the slide centre is negated.
 import sys, warnings
 warnings.filterwarnings('ignore')
-sys.path.insert(0, sys.argv[1] + '/src'); sys.path.insert(0, '/verif/harness')
-import stub_modules as stubmods; stubmods.install()
+sys.path.insert(0, sys.argv[1] + '/src'); sys.path.insert(0, '/root/scratch/probe')
+import stubmods; stubmods.install()
 import numpy as np
 from pydicom.dataset import Dataset
 from highdicom.seg.content import DimensionIndexSequence
